@@ -45,6 +45,8 @@ def interp_cases(tier, seed):
             for k in (1, 2, 3):
                 out.append((fam, end, [k]))
     out.append(("NP1", "all-bad", [0]))
+    for fam in ("NP1", "NP2", "NP2.4"):
+        out.append((fam, "in-outside-block", [0]))
     return out
 
 
@@ -119,6 +121,14 @@ def interp_check(case):
                 if mode == "last12":
                     labels[nc - 14:nc - 12] = 3          # outside-brain channels next to them may contribute
                 ntr += _interp_one(h, labels, data, seen, "%s bad=%r labels=%r" % (fam, pos, labs))
+    elif mode == "in-outside-block":
+        # dead / noisy channels whose only neighbours within reach are labelled outside the brain: they must be rebuilt from them
+        for pos in range(nc - 14, nc - 5):
+            for lab in (1, 2):
+                labels = np.zeros(nc)
+                labels[nc - 24:] = 3
+                labels[pos] = lab
+                ntr += _interp_one(h, labels, data, seen, "%s top block of 24 outside channels, bad=%d label=%d" % (fam, pos, lab))
     else:
         labels = np.ones(nc)
         ntr += _interp_one(h, labels, data, seen, "%s all channels bad" % fam)
@@ -218,15 +228,16 @@ def file_cases(tier, seed):
 def file_check(case):
     suffix, variant = case
     d = synth.proc_scratch(clean=True)
-    nb, bd = 10, 0.3
-    ns = int(1.5 * FS)
+    nb, bd = 7, 0.3
+    ns = int(round(nb * bd * FS))          # the seven batches tile the file without overlap
     bg, common, gain, indep = background(ns=ns, seed=SEED[0] + variant)
     raw = bg.copy()
     nc = raw.shape[0]
     rl = ns / FS
     starts = [int(t0 * FS) for t0 in np.linspace(0, rl - bd, nb)]
     # faults present in only some of the ten batches
-    plan = {50: (1, 7), 120: (1, 4), 200: (2, 6), 300: (2, 3), 10: (1, 10)}
+    plan = {50: (1, 4), 120: (1, 3), 200: (2, 5), 300: (2, 2), 10: (1, 7)}
+    mixed = {250: ((1, 2), (2, 2))}          # 3 clean, 2 dead, 2 noisy batches: the mode is 0 (the median would be 1)
     rng = np.random.default_rng(variant)
     for ch, (lab, nbat) in plan.items():
         for bi in range(nbat):
@@ -235,6 +246,16 @@ def file_check(case):
                 raw[ch, sl] = 0
             else:
                 raw[ch, sl] += 150e-6 * rng.standard_normal(sl.stop - sl.start)
+    for ch, parts in mixed.items():
+        bi = 0
+        for lab, nbat in parts:
+            for _ in range(nbat):
+                sl = slice(starts[bi], starts[bi] + int(bd * FS))
+                if lab == 1:
+                    raw[ch, sl] = 0
+                else:
+                    raw[ch, sl] += 150e-6 * rng.standard_normal(sl.stop - sl.start)
+                bi += 1
     # non overlapping batches are needed for the plan to be exact: check
     s2v = 2.34375e-06
     ints = np.clip(np.round(raw / s2v), -32768, 32767).astype(np.int16)
@@ -264,6 +285,8 @@ def file_check(case):
             bad = np.flatnonzero(got[clear] != exp[clear]) if got.shape == (nc,) else []
             v.append(("detect-file:mode", "labels from the file differ from the per-channel mode over the %d batches at channels %r" % (nb, np.flatnonzero(clear)[bad][:6].tolist())))
         # and the plan: majority faults are reported, minority ones are not
+        if got.shape == (nc,) and clear[250] and got[250] != 0:
+            v.append(("detect-file:plan", "channel 250 clean in 3, dead in 2 and noisy in 2 of 7 batches is labelled %r (mode is 0)" % got[250]))
         for ch, (lab, nbat) in plan.items():
             want = lab if nbat > nb / 2 else 0
             if got.shape == (nc,) and got[ch] != want and clear[ch]:
